@@ -164,6 +164,7 @@ func runRecover(c *ctx) error {
 			return err
 		}
 		held := [][]byte{}
+		originLost := false // the first datagram of the origin slot is always lost (young devices: the slot is still acceptable at the end)
 		forward := func(b []byte) { s.SendUDP(b) }
 		pump := func(lossy bool) {
 			want := nsent
@@ -172,6 +173,11 @@ func runRecover(c *ctx) error {
 				op := "deliver"
 				if lossy {
 					op = []string{"drop", "drop", "deliver", "deliver", "dup", "hold"}[rng.Intn(6)]
+					// the datagram of the device's very first slot (the origin of its history file) is lost the
+					// first time it is sent: only a retransmission can bring it to the server
+					if !originLost && len(b) >= 8 && (uint32(b[4])|uint32(b[5])<<8|uint32(b[6])<<16|uint32(b[7])<<24) == origin {
+						op, originLost = "drop", true
+					}
 				}
 				ts.Emit(hx.J{"a": "Net", "op": op, "dg": dg(b)})
 				switch op {
@@ -197,8 +203,9 @@ func runRecover(c *ctx) error {
 		if unfit {
 			readings = append(readings, 3000000000, 1<<32+5, 1<<31, -(1 << 33))
 		}
-		var lines []string
-		latest := uint32(0)
+		// a reading for the origin slot itself, the first one the history file can hold
+		lines := []string{fmt.Sprintf("%d,%d", G+int64(origin)*300+7, 700)}
+		latest := origin
 		addRows := func(n int) {
 			now := s.Now()
 			for i := 0; i < n; i++ {
